@@ -454,7 +454,7 @@ func (c *otApplyContext) matchPropertiesMark(glyph GID, glyphProps uint16, match
 	 * matchProps has the set index. */
 	if uint16(matchProps)&font.UseMarkFilteringSet != 0 {
 		sets := c.gdef.MarkGlyphSetsDef.Coverages
-		if setIndex := int(matchProps >> 16); setIndex < len(sets) {
+		if setIndex := int(matchProps >> 16); setIndex < len(sets) && sets[setIndex] != nil {
 			_, has := sets[setIndex].Index(gID(glyph))
 			return has
 		}
